@@ -54,6 +54,31 @@ class Alphabet:
         self.full = (1 << self.n) - 1
         self._leaf = {}
 
+        def rank(i):
+            c = self.syms[i]
+            o = c[0] if isinstance(c, bytes) else ord(c)
+            ch = chr(o)
+            if o < 128 and ch.isalnum():
+                return (0, o)
+            if 33 <= o < 127:
+                return (1, o)
+            if o == 32:
+                return (2, o)
+            return (3, o)
+        self.rank = [rank(i) for i in range(self.n)]
+
+    def rep_of(self, mask):
+        """nicest symbol of a non-empty class given as a bitmask"""
+        best = None
+        i = 0
+        m = mask
+        while m:
+            if m & 1 and (best is None or self.rank[i] < self.rank[best]):
+                best = i
+            m >>= 1
+            i += 1
+        return best
+
     def mask_of(self, pred):
         m = 0
         for i, c in enumerate(self.syms):
@@ -199,6 +224,32 @@ def parse(pattern, flags=0):
 # DFA
 
 
+def split_classes(classes, masks):
+    """refine a partition (list of bitmasks) by every mask"""
+    for m in masks:
+        new = []
+        for c in classes:
+            a = c & m
+            b = c & ~m
+            if a:
+                new.append(a)
+            if b:
+                new.append(b)
+        classes = new
+    return classes
+
+
+def members(mask):
+    out = []
+    i = 0
+    while mask:
+        if mask & 1:
+            out.append(i)
+        mask >>= 1
+        i += 1
+    return out
+
+
 class Lang:
     """complete DFA over alpha.n + len(markers) symbols; state 0 is initial"""
 
@@ -208,6 +259,33 @@ class Lang:
         self.alpha = alpha
         self.markers = list(markers)
         self.nsyms = alpha.n + len(self.markers)
+        self._classes = None
+
+    def classes(self):
+        """partition of Σ (bitmasks) into symbols with identical behaviour in every state"""
+        if self._classes is None:
+            nA = self.alpha.n
+            by = {}
+            cols = list(zip(*[row[:nA] for row in self.trans])) if self.trans else []
+            for sym, col in enumerate(cols):
+                by[col] = by.get(col, 0) | (1 << sym)
+            self._classes = list(by.values())
+        return self._classes
+
+    def _groups_with(self, o=None):
+        """[(representative symbol, [member symbols])] for Σ, refined with the classes of `o`; markers singly"""
+        cl = self.classes()
+        if o is None and getattr(self, '_groups0', None) is not None:
+            return self._groups0
+        if o is not None:
+            cl = split_classes(cl, o.classes())
+        out = [(self.alpha.rep_of(c), members(c)) for c in cl]
+        out.sort(key=lambda g: self.alpha.rank[g[0]])
+        for k in range(len(self.markers)):
+            out.append((self.alpha.n + k, [self.alpha.n + k]))
+        if o is None:
+            self._groups0 = out
+        return out
 
     # -- presentation
     def symname(self, i):
@@ -241,21 +319,24 @@ class Lang:
         i = 0
         ta, tb = self.trans, o.trans
         n = self.nsyms
+        groups = self._groups_with(o)
         while i < len(order):
             a, b = order[i]
             i += 1
-            row = []
+            row = [0] * n
             ra, rb = ta[a], tb[b]
-            for s in range(n):
-                q = (ra[s], rb[s])
+            for r, mem in groups:
+                q = (ra[r], rb[r])
                 k = idx.get(q)
                 if k is None:
                     k = idx[q] = len(order)
                     order.append(q)
-                row.append(k)
+                for s in mem:
+                    row[s] = k
             trans.append(row)
             acc.append(f(self.acc[a], o.acc[b]))
-        return Lang(trans, acc, self.alpha, self.markers)
+        res = Lang(trans, acc, self.alpha, self.markers)
+        return res
 
     def intersect(self, o):
         return self.product(o, lambda x, y: x and y)
@@ -270,6 +351,7 @@ class Lang:
         """shortest accepted string (as text) or None when the language is empty"""
         seen = {0: None}
         dq = deque([0])
+        groups = self._groups_with()
         while dq:
             p = dq.popleft()
             if self.acc[p]:
@@ -279,7 +361,7 @@ class Lang:
                     out.append(s)
                 return self.render(reversed(out))
             row = self.trans[p]
-            for s in range(self.nsyms):
+            for s, _mem in groups:
                 q = row[s]
                 if q not in seen:
                     seen[q] = (p, s)
@@ -295,6 +377,7 @@ class Lang:
         seen = {(0, 0): None}
         dq = deque([(0, 0)])
         ta, tb, aa, ab = self.trans, o.trans, self.acc, o.acc
+        groups = self._groups_with(o)
         while dq:
             p = dq.popleft()
             if aa[p[0]] and not ab[p[1]]:
@@ -304,7 +387,7 @@ class Lang:
                     out.append(s)
                 return self.render(reversed(out))
             ra, rb = ta[p[0]], tb[p[1]]
-            for s in range(self.nsyms):
+            for s, _mem in groups:
                 q = (ra[s], rb[s])
                 if q not in seen:
                     seen[q] = (p, s)
@@ -337,8 +420,18 @@ class Lang:
         return len(self.trans)
 
 
-def _determinise(alpha, markers, start, step, accepting):
-    nsyms = alpha.n + len(markers)
+def _determinise(alpha, markers, start, step, accepting, classes=None):
+    """subset-construction driver.  `classes`: partition of Σ (bitmasks) into symbols on which `step`
+    is known to behave identically (None: every symbol on its own)"""
+    nA = alpha.n
+    nsyms = nA + len(markers)
+    if classes is None:
+        groups = [(i, [i]) for i in range(nA)]
+    else:
+        groups = [(alpha.rep_of(c), members(c)) for c in classes]
+        if sum(len(m) for _, m in groups) != nA:
+            raise AnalysisError('internal: symbol classes do not partition the alphabet')
+    groups += [(nA + k, [nA + k]) for k in range(len(markers))]
     states = {start: 0}
     order = [start]
     trans, acc = [], []
@@ -346,23 +439,35 @@ def _determinise(alpha, markers, start, step, accepting):
     while i < len(order):
         S = order[i]
         i += 1
-        row = []
+        row = [0] * nsyms
         cache = {}
-        for sym in range(nsyms):
-            T = step(S, sym, cache)
+        for r, mem in groups:
+            T = step(S, r, cache)
             k = states.get(T)
             if k is None:
                 k = states[T] = len(order)
                 order.append(T)
                 if len(order) > 200000:
                     raise AnalysisError('automaton too large')
-            row.append(k)
+            for sym in mem:
+                row[sym] = k
         trans.append(row)
         acc.append(accepting(S))
     return Lang(trans, acc, alpha, markers)
 
 
+_RL_CACHE = {}
+
+
 def regex_lang(pattern, flags=0, mode='match', groups=(), markers=None, alpha=None):
+    key = (pattern, int(flags), mode, tuple(groups), None if markers is None else tuple(markers), id(alpha) if alpha is not None else None)
+    r = _RL_CACHE.get(key)
+    if r is None:
+        r = _RL_CACHE[key] = _regex_lang(pattern, flags, mode, groups, markers, alpha)
+    return r
+
+
+def _regex_lang(pattern, flags=0, mode='match', groups=(), markers=None, alpha=None):
     """DFA of { s : re.<mode>(pattern, s) succeeds }  (mode: match | fullmatch | search).
 
     With `groups` (names or numbers) the language is over Σ ∪ markers and contains, for every
@@ -522,7 +627,10 @@ def regex_lang(pattern, flags=0, mode='match', groups=(), markers=None, alpha=No
                 return True
         return False
 
-    return _determinise(alpha, markers, start, step, accepting)
+    masks = {m for trs in nfa.tr for (m, _n) in trs}
+    masks.add(1 << NL)
+    classes = split_classes([alpha.full], masks)
+    return _determinise(alpha, markers, start, step, accepting, classes)
 
 
 def _meet(pr, want):
@@ -537,13 +645,13 @@ def _meet(pr, want):
     return False
 
 
-def from_function(alpha, markers, start, step, accepting):
+def from_function(alpha, markers, start, step, accepting, classes=None):
     """hand-specified deterministic automaton: step(state, symbol_index) -> state (hashable)"""
-    return _determinise(alpha, list(markers), start, lambda S, sym, cache: step(S, sym), accepting)
+    return _determinise(alpha, list(markers), start, lambda S, sym, cache: step(S, sym), accepting, classes)
 
 
 def sigma_star(alpha, markers=()):
-    return from_function(alpha, markers, 0, lambda s, sym: 0, lambda s: True)
+    return from_function(alpha, markers, 0, lambda s, sym: 0, lambda s: True, [alpha.full])
 
 
 def erase_markers(lang):
@@ -568,7 +676,7 @@ def erase_markers(lang):
     def step(S, sym, cache):
         return clo({lang.trans[q][sym] for q in S})
 
-    return _determinise(lang.alpha, [], start, step, lambda S: any(lang.acc[q] for q in S))
+    return _determinise(lang.alpha, [], start, step, lambda S: any(lang.acc[q] for q in S), lang.classes())
 
 
 def capture_agreement(reader, rflags, rmode, template, tflags, groups, alpha=None, rgroups=None):
@@ -604,11 +712,21 @@ def agreement(reader, rflags, rmode, Tm, Te, groups, rgroups=None, alpha=None):
         k = tail_kind(reader, rflags, rgroups[g])
         if k is not None:
             Rm = prune_tail(Rm, g, k)
+    inv = {v: k for k, v in rgroups.items()}
+    for rg in first_optional_groups(reader, rflags, set(rgroups.values())):
+        g = inv[rg]
+        part = has_group(alpha, markers, g)
+        with_g = erase_markers(Rm.intersect(part))
+        # backtracking tries the participating alternative of a leading greedy optional first:
+        # a parse without it is never chosen for a string that also has a parse with it
+        Rm = Rm.minus(part.complement().intersect(lift(with_g, markers)))
     nA = alpha.n
     seen = {(0, 0, 0): None}
     dq = deque([(0, 0, 0)])
     w2 = None
     nS = nA + len(markers)
+    cl = split_classes(split_classes(Rm.classes(), Tm.classes()), Te.classes())
+    agree_syms = sorted((alpha.rep_of(c) for c in cl), key=lambda i: alpha.rank[i]) + list(range(nA, nS))
     while dq:
         p = dq.popleft()
         r, e, t = p
@@ -620,7 +738,7 @@ def agreement(reader, rflags, rmode, Tm, Te, groups, rgroups=None, alpha=None):
             w2 = Tm.render(reversed(out))
             break
         rr, tt = Rm.trans[r], Tm.trans[t]
-        for sym in range(nS):
+        for sym in agree_syms:
             q = (rr[sym], Te.trans[e][sym] if sym < nA else e, tt[sym])
             if q not in seen:
                 seen[q] = (p, sym)
@@ -646,7 +764,7 @@ def has_group(alpha, markers, g):
     """marked strings in which group g participates"""
     markers = list(markers)
     k = alpha.n + markers.index(('open', g))
-    return from_function(alpha, markers, 0, lambda s, sym: 1 if (s == 1 or sym == k) else 0, lambda s: s == 1)
+    return from_function(alpha, markers, 0, lambda s, sym: 1 if (s == 1 or sym == k) else 0, lambda s: s == 1, [alpha.full])
 
 
 def group_content(alpha, markers, g, lang):
@@ -669,7 +787,7 @@ def group_content(alpha, markers, g, lang):
         if ph == 'in' and sym < nA:
             return ('in', lang.trans[q][sym])
         return s
-    return from_function(alpha, markers, ('before', 0), step, lambda s: s[0] == 'ok')
+    return from_function(alpha, markers, ('before', 0), step, lambda s: s[0] == 'ok', lang.classes())
 
 
 def lift(lang, markers):
@@ -677,7 +795,9 @@ def lift(lang, markers):
     markers = list(markers)
     nA = lang.alpha.n
     trans = [row[:nA] + [q] * len(markers) for q, row in enumerate(lang.trans)]
-    return Lang(trans, list(lang.acc), lang.alpha, markers)
+    res = Lang(trans, list(lang.acc), lang.alpha, markers)
+    res._classes = lang._classes
+    return res
 
 
 # ---- line-level operators on a language of whole texts ------------------------------------------
@@ -752,7 +872,8 @@ def lines_of(lang, which='rest', universal_newlines=False):
                 if lang.trans[q][b] in co and not (e and f and b == nl):
                     return True
         return False
-    return from_function(alpha, lang.markers, frozenset(starts), step, accepting)
+    return from_function(alpha, lang.markers, frozenset(starts), step, accepting,
+                         split_classes(lang.classes(), [1 << b for b in bnd]))
 
 
 def strip_lang(lang, chars):
@@ -799,7 +920,7 @@ def strip_lang(lang, chars):
         if ph in ('dead', 'endc'):
             return False
         return any(q in fin for q in qs)
-    return from_function(alpha, lang.markers, start, step, accepting)
+    return from_function(alpha, lang.markers, start, step, accepting, split_classes(lang.classes(), [1 << c for c in cs]))
 
 
 def bytes_pattern_as_str(pattern):
@@ -950,5 +1071,37 @@ def prune_tail(Rm, g, kind):
 
     def accepting(S):
         return any(ph == 2 and Rm.acc[q1] and Rm.acc[q2] for (q1, q2, ph, gap) in S)
-    dominated = from_function(alpha, markers, eps_closure({(0, 0, 0, False)}), step, accepting)
+    dominated = from_function(alpha, markers, eps_closure({(0, 0, 0, False)}), step, accepting, Rm.classes())
     return Rm.minus(dominated)
+
+
+
+def first_optional_groups(pattern, flags, wanted):
+    """groups (names/numbers in `wanted`) whose participation is decided first by backtracking priority:
+    they sit directly in a greedy optional that is the first consuming element of the top-level sequence"""
+    tree = parse(pattern, flags)
+    gd = tree.state.groupdict
+    names = {v: k for k, v in gd.items()}
+    for op, av in tree:
+        ops = str(op)
+        if ops == 'AT':
+            continue
+        if ops == 'MAX_REPEAT' and av[0] == 0 and av[1] == 1:
+            out = []
+
+            def collect(seq):
+                for o, a in seq:
+                    o = str(o)
+                    if o == 'SUBPATTERN':
+                        nm = names.get(a[0], a[0])
+                        if nm in wanted:
+                            out.append(nm)
+                        elif a[0] in wanted:
+                            out.append(a[0])
+                        collect(a[3])
+                    elif o in ('MAX_REPEAT', 'MIN_REPEAT', 'BRANCH'):
+                        return
+            collect(av[2])
+            return out
+        return []
+    return []
